@@ -55,14 +55,16 @@ Gregorian calendar, for every integer day number: -/
 
 /-- day 0 is Thursday 1970-01-01; the date of the next day is the calendar successor (next day of the month; first of
 the next month after the 28th/29th/30th/31st as the Gregorian rules say; 1 January after 31 December); every date is
-well-formed; `daysFromCivil` is the inverse; the weekday advances cyclically -/
+well-formed; `daysFromCivil` is the inverse in both directions (day numbers ↔ well-formed dates is a bijection); the
+weekday advances cyclically -/
 theorem calendar_is_gregorian :
     (civilFromDays 0 = { y := 1970, m := 1, d := 1 } ∧ isoWeekday 0 = 4) ∧
     (∀ z, IsSucc (civilFromDays z) (civilFromDays (z + 1))) ∧
     (∀ z, WellFormed (civilFromDays z)) ∧
     (∀ z, daysFromCivil (civilFromDays z).y (civilFromDays z).m (civilFromDays z).d = z) ∧
+    (∀ y m d, WellFormed { y := y, m := m, d := d } → civilFromDays (daysFromCivil y m d) = { y := y, m := m, d := d }) ∧
     (∀ z, isoWeekday (z + 1) = if isoWeekday z = 7 then 1 else isoWeekday z + 1) :=
-  ⟨civil_epoch, civil_succ, civil_wellFormed, days_of_civil, weekday_succ⟩
+  ⟨civil_epoch, civil_succ, civil_wellFormed, days_of_civil, civil_of_days, weekday_succ⟩
 
 -- e.g. 2024-02-29 exists and is followed by 2024-03-01; 2100-02-28 is followed by 2100-03-01
 #guard civilFromDays (daysFromCivil 2024 2 29 + 1) == { y := 2024, m := 3, d := 1 }
